@@ -1687,6 +1687,8 @@ impl Bundle {
                     // that they will, we can take the other bundle's value sum.
                     self.value_sum = value_sum;
                 }
+                // Neither bundle has excess actions, so the value sums must match.
+                (_, _, Ordering::Equal) if self.value_sum != value_sum => return None,
                 // Do nothing otherwise.
                 (_, _, Ordering::Equal) | (_, true, Ordering::Greater) => (),
             },
